@@ -12,7 +12,10 @@ from .model import ClassInfo, dotted, call_name, params_of, src, qualname
 CONTAINER_MUTATORS = {"append", "extend", "insert", "pop", "remove", "clear", "update", "setdefault", "add", "discard",
                       "sort", "reverse", "popitem", "__setitem__", "__delitem__"}
 FRESH_CALLS = {"dict", "list", "set", "tuple", "copy", "deepcopy", "zeros", "empty", "array", "identity", "eye", "ones",
-               "sorted", "range", "enumerate", "zip", "len", "str", "int", "float", "format", "reshape", "DataFrame"}
+               "sorted", "range", "enumerate", "zip", "len", "str", "int", "float", "format", "DataFrame"}
+
+
+ALIASING_CALLS = {"asarray", "asanyarray", "ascontiguousarray", "atleast_1d", "atleast_2d", "ravel", "reshape", "view", "squeeze", "transpose"}
 
 
 def owner_class(fn):
@@ -190,6 +193,12 @@ def local_kinds(repo, fn):
                 return "fresh"          # constructors and module functions return new objects here
             if nm in FRESH_CALLS:
                 return "fresh"
+            # a library call that is not known to build a new object may hand back (a view of) one of its arguments: np.asarray(x), x.view(), ...
+            if nm in ALIASING_CALLS:
+                for a in rhs.args:
+                    k = _expr_kind(a, "assign", classify, depth)
+                    if k != "fresh":
+                        return k
             # method call on something: result may alias the receiver's content (e.g. dict.get, oracle) -> alias of receiver root
             root = _root_of(rhs.func)
             if isinstance(root, ast.Name):
